@@ -850,7 +850,7 @@ def _cases(ctx):
         for f in sorted(corpus.glob("*.json")):
             yield json.loads(f.read_text())["case"]
     yield from exhaustive_cases(ctx.tier == "thorough" or ctx.deep)
-    for i in range(ctx.budget(4000, 100000)):
+    for i in range(ctx.budget(2500, 80000)):
         mal = i % 6 == 5
         if i % 3 == 2:
             yield gen_limits_case(ctx.rng, mal)
